@@ -154,6 +154,16 @@ def write_library(lib, d):
     cpp.append('int vsum(const std::vector<int> &a0, int a1, int a2) { long t = 0; for (size_t i = 0; i < a0.size(); ++i) t += a0[i]; '
                'std::printf("LOG vsum %d %ld %d %d\\n", (int)a0.size(), t, a1, a2); return 41; }')
     ydecl.append({"decl": "int vsum(const std::vector<int> &a0, int a1 +implied(size(a0)), int a2 = 7)"})
+    # array results / output arrays whose extents are EXPRESSIONS of the arguments (rank 1 and rank 2)
+    hpp.append("int *get_table(int nrow, int ncol); void fill_table(int nrow, int ncol, int *out); int *get_row(int ncol);")
+    cpp.append('static int tbl_[64]; int *get_table(int nrow, int ncol) { std::printf("LOG get_table %d %d\\n", nrow, ncol); '
+               'for (int i = 0; i < 64; ++i) tbl_[i] = 300 + i; return tbl_; }')
+    cpp.append('void fill_table(int nrow, int ncol, int *out) { std::printf("LOG fill_table %d %d\\n", nrow, ncol); '
+               'for (int i = 0; i < (nrow + 1) * ncol; ++i) out[i] = 500 + i; }')
+    cpp.append('int *get_row(int ncol) { std::printf("LOG get_row %d\\n", ncol); for (int i = 0; i < 64; ++i) tbl_[i] = 700 + i; return tbl_; }')
+    ydecl.append({"decl": "int *get_table(int nrow, int ncol) +dimension(nrow+1,ncol)"})
+    ydecl.append({"decl": "void fill_table(int nrow, int ncol, int *out +intent(out)+dimension(nrow+1,ncol))"})
+    ydecl.append({"decl": "int *get_row(int ncol) +dimension(ncol+1)"})
     hpp.append("class Cls { public:")
     cdecl = []
     for k, f in enumerate(lib["cls"]):
@@ -401,11 +411,16 @@ def run(ctx):
                 queries.append((name, is_method, group, pos, kw, kind))
         mres = drv.batch([model_query(g, pos, kw) for (_, _, g, pos, kw, _) in queries])
         # the implied-argument function: (positional, keywords, expected output)
-        extra = [([[1, 2, 3]], {}, ["LOG vsum 3 6 3 7", "RET 41"]), ([[], 5], {}, ["LOG vsum 0 0 0 5", "RET 41"]),
-                 ([], {0: [4, 4], 2: 1}, ["LOG vsum 2 8 2 1", "RET 41"]), ([[9] * 11], {2: -2}, ["LOG vsum 11 99 11 -2", "RET 41"]),
-                 ([3], {}, ["EXC"]), ([[1], 2, 3], {}, ["EXC"])]
+        extra = [("vsum", [[1, 2, 3]], {}, ["LOG vsum 3 6 3 7", "RET 41"]), ("vsum", [[], 5], {}, ["LOG vsum 0 0 0 5", "RET 41"]),
+                 ("vsum", [], {0: [4, 4], 2: 1}, ["LOG vsum 2 8 2 1", "RET 41"]), ("vsum", [[9] * 11], {2: -2}, ["LOG vsum 11 99 11 -2", "RET 41"]),
+                 ("vsum", [3], {}, ["EXC"]), ("vsum", [[1], 2, 3], {}, ["EXC"]),
+                 ("get_table", [2, 3], {}, ["LOG get_table 2 3", "RET " + repr([300 + i for i in range(9)])]),
+                 ("get_table", [1, 4], {}, ["LOG get_table 1 4", "RET " + repr([300 + i for i in range(8)])]),
+                 ("fill_table", [2, 3], {}, ["LOG fill_table 2 3", "RET " + repr([500 + i for i in range(9)])]),
+                 ("fill_table", [0, 2], {}, ["LOG fill_table 0 2", "RET " + repr([500, 501])]),
+                 ("get_row", [4], {}, ["LOG get_row 4", "RET " + repr([700 + i for i in range(5)])])]
         inp = "\n".join(json.dumps({"name": n, "method": m, "pos": pos, "kw": {("zz" if k == "zz" else "a%d" % k): v for k, v in kw.items()}})
-                        for (n, m, _, pos, kw, _) in queries + [("vsum", False, None, p_, k_, "extra") for (p_, k_, _) in extra]) + "\n"
+                        for (n, m, _, pos, kw, _) in queries + [(n_, False, None, p_, k_, "extra") for (n_, p_, k_, _) in extra]) + "\n"
         p = subprocess.run([vlib.PY, os.path.join(d, "runner.py"), d], input=inp, stdout=subprocess.PIPE, stderr=subprocess.PIPE,
                            text=True, timeout=300, env=dict(os.environ, PYTHONUNBUFFERED="1"))
         out = [l for l in p.stdout.split("\n") if l]
@@ -419,20 +434,25 @@ def run(ctx):
         if chunks and chunks[0] and chunks[0][0].startswith("LOG Cls#"):
             chunks[0] = chunks[0][1:]
         xchunks = chunks[len(queries):]
-        if p.returncode == 0 and len(chunks) == len(queries) + len(extra):
-            chunks = chunks[:len(queries)]
-            for (p_, k_, want), got in zip(extra, xchunks):
-                ctx.count(1, (lib["idx"], "vsum", json.dumps(p_), json.dumps(sorted(k_.items()))))
+        complete = p.returncode == 0 and len(chunks) == len(queries) + len(extra)
+        if len(chunks) >= len(queries):
+            # (the calls that completed are judged even when a later one brought the interpreter down)
+            if complete:
+                chunks = chunks[:len(queries)]
+            for (n_, p_, k_, want), got in zip(extra, xchunks):
+                ctx.count(1, (lib["idx"], n_, json.dumps(p_), json.dumps(sorted(k_.items()))))
                 ctx.hist("implied:" + got[-1].split()[0])
                 okx = (got[-1].startswith("EXC TypeError") or got[-1].startswith("EXC ValueError")) if want == ["EXC"] else got == want
                 if not okx:
-                    ctx.violation("failing-input", {"what": "a function with a list argument and an implied argument did not deliver the documented values "
-                                                            "(implied arguments are computed from their expression, not taken from the call)",
-                                                    "input": {"library_yaml": open(os.path.join(d, "tlib.yaml")).read(), "function": "vsum",
+                    ctx.violation("failing-input", {"what": "a function with list / array arguments or results did not deliver the documented values (implied "
+                                                            "arguments are computed from their expression; an array result has the extent its dimension "
+                                                            "expression gives)",
+                                                    "input": {"library_yaml": open(os.path.join(d, "tlib.yaml")).read(), "function": n_,
                                                               "positional": p_, "keywords": {"a%d" % k: v for k, v in k_.items()}},
                                                     "observed": got, "expected": want})
         if p.returncode != 0 or len(chunks) != len(queries):
-            nxt = queries[len(chunks)] if len(chunks) < len(queries) else None
+            allq = queries + [(n_, False, None, p_, k_, "extra") for (n_, p_, k_, _) in extra]
+            nxt = allq[len(chunks)] if len(chunks) < len(allq) else None
             ctx.broken.append(("correspondence", "py-run", "rc=%s stderr=%s chunks=%d queries=%d next=%r yaml=%s" % (
                 p.returncode, p.stderr[-600:], len(chunks), len(queries), nxt and (nxt[0], nxt[3], nxt[4], nxt[5]),
                 open(os.path.join(d, "tlib.yaml")).read()[-900:])))
